@@ -15,17 +15,22 @@ open Aw.Store.Peewee.Aux
 
 variable {D : Type}
 
-/-- bucket ids, bucket keys and event ids are pairwise distinct; the key cache is the projection of
-    the bucket table; every event row refers to an existing bucket row -/
+/-- bucket ids and bucket keys are pairwise distinct; event ids increase strictly along the event
+    table (so they are pairwise distinct: `Inv.eids`); the key cache is the projection of the bucket
+    table; every event row refers to an existing bucket row -/
 structure Inv (s : St D) : Prop where
   bids : (s.buckets.map (·.bid)).Nodup
   bkeys : (s.buckets.map (·.key)).Nodup
-  eids : (s.events.map (·.id)).Nodup
+  esorted : (s.events.map (·.id)).Pairwise (· < ·)
   cache : s.keys = s.buckets.map (fun r => (r.bid, r.key))
   fk : ∀ e ∈ s.events, ∃ r ∈ s.buckets, r.key = e.bucket
 
 theorem inv_init : Inv ({} : St D) :=
-  ⟨List.nodup_nil, List.nodup_nil, List.nodup_nil, rfl, fun e he => by cases he⟩
+  ⟨List.nodup_nil, List.nodup_nil, List.Pairwise.nil, rfl, fun e he => by cases he⟩
+
+/-- event ids are pairwise distinct -/
+theorem Inv.eids {s : St D} (h : Inv s) : (s.events.map (·.id)).Nodup :=
+  h.esorted.imp (fun hab => Int.ne_of_lt hab)
 
 /-! ### looking a bucket up -/
 
@@ -110,11 +115,11 @@ theorem inv_mapEvents {s : St D} (h : Inv s) (f : ERow D → ERow D)
     Inv { s with events := s.events.map f } where
   bids := h.bids
   bkeys := h.bkeys
-  eids := by
-    show ((s.events.map f).map (·.id)).Nodup
+  esorted := by
+    show ((s.events.map f).map (·.id)).Pairwise (· < ·)
     rw [List.map_map]
     have : ((fun r : ERow D => r.id) ∘ f) = (fun r : ERow D => r.id) := funext fun r => (hf r).1
-    rw [this]; exact h.eids
+    rw [this]; exact h.esorted
   cache := h.cache
   fk := by
     intro e he
@@ -125,7 +130,7 @@ theorem inv_filterEvents {s : St D} (h : Inv s) (p : ERow D → Bool) :
     Inv { s with events := s.events.filter p } where
   bids := h.bids
   bkeys := h.bkeys
-  eids := List.Nodup.sublist (List.Sublist.map _ List.filter_sublist) h.eids
+  esorted := List.Pairwise.sublist (List.Sublist.map _ List.filter_sublist) h.esorted
   cache := h.cache
   fk := fun e he => h.fk e (List.mem_filter.mp he).1
 
@@ -134,10 +139,10 @@ theorem inv_appendEvent {s : St D} (h : Inv s) {b : String} {k : Int} (hk : keyO
     Inv { s with events := s.events ++ [⟨maxId s.events + 1, k, ts, dur, d⟩] } where
   bids := h.bids
   bkeys := h.bkeys
-  eids := by
-    show ((s.events ++ [_]).map (fun r : ERow D => r.id)).Nodup
-    rw [List.map_append, List.nodup_append]
-    refine ⟨h.eids, by simp, ?_⟩
+  esorted := by
+    show ((s.events ++ [_]).map (fun r : ERow D => r.id)).Pairwise (· < ·)
+    rw [List.map_append, List.pairwise_append]
+    refine ⟨h.esorted, by simp, ?_⟩
     intro a ha c hc
     obtain ⟨x, hx, rfl⟩ := List.mem_map.mp ha
     have := id_le_maxId hx
@@ -199,7 +204,7 @@ theorem createBucket_ok {s s' : St D} {b : String} {m : Meta} (h : createBucket 
 theorem createBucket_inv {s s' : St D} {b : String} {m : Meta} (h : Inv s)
     (hc : createBucket s b m = .ok s') : Inv s' := by
   obtain ⟨hnew, rfl⟩ := createBucket_ok hc
-  refine ⟨?_, ?_, h.eids, rfl, ?_⟩
+  refine ⟨?_, ?_, h.esorted, rfl, ?_⟩
   · show ((s.buckets ++ [_]).map (fun r : BRow => r.bid)).Nodup
     rw [List.map_append, List.nodup_append]
     refine ⟨h.bids, by simp, ?_⟩
@@ -283,7 +288,7 @@ theorem updateBucket_inv {s s' : St D} {b : String} {u : Upd} (h : Inv s)
     funext fun r => updRow_bid k u r
   have e2 : ((fun r : BRow => r.key) ∘ updRow k u) = (fun r : BRow => r.key) :=
     funext fun r => updRow_key k u r
-  refine ⟨?_, ?_, h.eids, ?_, ?_⟩
+  refine ⟨?_, ?_, h.esorted, ?_, ?_⟩
   · show ((s.buckets.map (updRow k u)).map (fun r : BRow => r.bid)).Nodup
     rw [List.map_map, e1]; exact h.bids
   · show ((s.buckets.map (updRow k u)).map (fun r : BRow => r.key)).Nodup
@@ -365,7 +370,7 @@ theorem deleteBucket_inv {s s' : St D} {b : String} (h : Inv s)
   refine ⟨?_, ?_, ?_, rfl, ?_⟩
   · exact List.Nodup.sublist (List.Sublist.map _ List.filter_sublist) h.bids
   · exact List.Nodup.sublist (List.Sublist.map _ List.filter_sublist) h.bkeys
-  · exact List.Nodup.sublist (List.Sublist.map _ List.filter_sublist) h.eids
+  · exact List.Pairwise.sublist (List.Sublist.map _ List.filter_sublist) h.esorted
   · intro e he
     have he' : e ∈ s.events ∧ e.bucket ≠ k := by simpa using List.mem_filter.mp he
     obtain ⟨r, hr, hrk⟩ := h.fk e he'.1
@@ -767,6 +772,19 @@ theorem replace_live {s : St D} {b : String} {i : Int} {e : Ev D} (h : Inv s)
       simp only [hf]
       exact ⟨_, rfl⟩
 
+/-- `replace` for ANY id and bucket: the state it leaves behind (unchanged when it raises) is
+    `Spec.replaceId` of the view -/
+theorem replace_view_any {s : St D} {b : String} {i : Int} {e : Ev D} (h : Inv s) :
+    view (match replace s b i e with | .ok s' => s' | .error _ => s) =
+      Spec.replaceId (view s) b i e := by
+  cases hr : replace s b i e with
+  | ok s' => exact (replace_view h hr).2
+  | error x =>
+    by_cases hi : i ∈ Spec.ids (view s) b
+    · obtain ⟨s', hs'⟩ := replace_live (e := e) h hi
+      rw [hs'] at hr; cases hr
+    · exact (replaceId_notLive _ _ _ _ hi).symm
+
 /-! ### delete -/
 
 theorem delete_ok {s s' : St D} {b : String} {i : Int} {n : Nat} (hc : delete s b i = .ok (s', n)) :
@@ -1008,6 +1026,70 @@ theorem replaceLast_empty {s : St D} {b : String} {m : Meta} {hint : Option Int}
     | cons a l => rw [hl] at hes; cases hes
   simp only [this, List.isEmpty_nil, if_true]
 
+/-! ### how `get_events(limit=1)` breaks ties -/
+
+theorem ids_sorted {s : St D} {b : String} {m : Meta} {es : List (Ev D)} (h : Inv s)
+    (hv : view s b = some (m, es)) : (es.filterMap (·.id)).Pairwise (· < ·) := by
+  obtain ⟨r, _, _, _, hk, _, rfl⟩ := view_some h hv
+  have := ids_eq h hk
+  unfold Spec.ids at this
+  rw [hv] at this
+  simp only at this
+  rw [this]
+  exact List.Pairwise.sublist (List.Sublist.map _ List.filter_sublist) h.esorted
+
+/-- `get_events(limit=1)` returns the first newest event in storage order, which is the one
+    `replace_last` rewrites when no hint is given, and the one with the lowest id among the newest -/
+theorem getEvents_one_first {s : St D} {b : String} {m : Meta} {es : List (Ev D)} (h : Inv s)
+    (hv : view s b = some (m, es)) (hne : es ≠ []) :
+    ∃ t hid, getEvents s b 1 none none = .ok [t] ∧ t.id = some hid ∧
+      FirstMax (fun x : Ev D => x.ts) es t ∧
+      (∀ x ∈ es, ∀ xid, x.id = some xid → t.ts ≤ x.ts → hid ≤ xid) ∧
+      ∀ e, ∃ s', replaceLast s b none e = .ok (some (s', hid)) := by
+  obtain ⟨r, _, _, _, hk, _, rfl⟩ := view_some h hv
+  have hne' : rowsOf s r.key ≠ [] := fun h0 => hne (by rw [h0]; rfl)
+  obtain ⟨t, rest, hs, hfm⟩ := head_sortDesc_first (key := fun r : ERow D => r.ts) hne'
+  have hfind := hfm.find
+  obtain ⟨pre, post, hl, hpre, hpost⟩ := hfm
+  have hsorted : (rowsOf s r.key).Pairwise (fun a b => a.id < b.id) := by
+    have := List.Pairwise.sublist (List.Sublist.map (fun r : ERow D => r.id)
+      (List.filter_sublist (p := fun e => decide (e.bucket = r.key)))) h.esorted
+    exact List.pairwise_map.mp this
+  refine ⟨toEv t, t.id, ?_, rfl, ?_, ?_, ?_⟩
+  · unfold getEvents
+    rw [if_neg (by decide), hk]
+    simp only [filter_inRange_none, hs]
+    rfl
+  · refine ⟨pre.map toEv, post.map toEv, by rw [hl]; simp, ?_, ?_⟩
+    · intro x hx
+      obtain ⟨y, hy, rfl⟩ := List.mem_map.mp hx
+      exact hpre y hy
+    · intro x hx
+      obtain ⟨y, hy, rfl⟩ := List.mem_map.mp hx
+      exact hpost y hy
+  · intro x hx xid hxid hts
+    obtain ⟨y, hy, rfl⟩ := List.mem_map.mp hx
+    have hyid : y.id = xid := by simpa [toEv] using hxid
+    rw [hl] at hy hsorted
+    rw [List.pairwise_append, List.pairwise_cons] at hsorted
+    rcases List.mem_append.mp hy with hy | hy
+    · have := hpre y hy
+      have : y.ts < t.ts := this
+      have : t.ts ≤ y.ts := hts
+      omega
+    · rcases List.mem_cons.mp hy with rfl | hy
+      · omega
+      · have := hsorted.2.1.1 y hy; omega
+  · intro e
+    unfold replaceLast
+    rw [hk]
+    have : (rowsOf s r.key).isEmpty = false := by
+      cases hl' : rowsOf s r.key with
+      | nil => exact absurd hl' hne'
+      | cons a l => rfl
+    simp only [this, defaultNewest, hfind]
+    exact ⟨_, rfl⟩
+
 /-! ### insertMany -/
 
 /-- the loop body of `insert_many` -/
@@ -1214,6 +1296,7 @@ example : ∃ s', replaceLast s0 "a" (some 3) e0 = .ok (some (s', 3)) ∧
   obtain ⟨_, _, _, _, hv⟩ := replaceLast_hint_view inv0 view_a (hint := some 3) (e := e0) rfl
   exact hv
 example := replaceLast_view inv0 view_a (by decide)
+example := getEvents_one_first inv0 view_a (by decide)
 example : ∃ s', insertMany s0 "a" [e0, { e0 with id := some 3 }, { e0 with id := some 2 }, e0] = .ok s' :=
   ⟨_, rfl⟩
 example := insertMany_view inv0 (b := "a")
